@@ -48,6 +48,10 @@ def oracle(case, v, info):
     for r in info:
         for key, what in r.get("inv", []):
             viols.append((f"c05.{key}", f"increment {r['k']} ({r['phase']}): {what}"))
+        if r["phase"] == "reset":
+            trips = []; prev_open = {n.name: False for n in v.nets}
+            if r["normal"]:
+                viols.append(("c05.reset-not-normal", f"after reset_system the configuration is not the normal one: {r['normal'][:3]}"))
         if r["phase"] == "fail" and r["was_connected"]:
             l = v.ps.get_comp(r["line"])
             n = l.parent_network
@@ -91,6 +95,8 @@ def oracle_auto(case, v, info):
     for r in info:
         for key, what in r.get("inv", []):
             viols.append((f"c05.{key}", f"increment {r['k']} ({r['phase']}): {what}"))
+        if r["phase"] == "reset" and r["normal"]:
+            viols.append(("c05.reset-not-normal", f"after reset_system the configuration is not the normal one: {r['normal'][:3]}"))
         if r["phase"] == "fail" and r["was_connected"]:
             n = v.ps.get_comp(r["line"]).parent_network
             for a in [n] + list(getattr(n, "child_network_list", [])):
@@ -120,6 +126,8 @@ def gen(rng, n_manual, n_auto):
             other = rng.randrange(nl)
             c["faults"] = {"1": [["F0L0", "6"]], str(k2): [[f"F0L{other}", str(rng.choice([F(1), F(2)]))]]}
             c["n_inc"] = k2 + int((T + 8) / dt) + 8
+        if j % 6 == 5:
+            ctl.add_second(rng, c)       # two iterations on the same objects (reset_system between)
         cases.append(c)
     for j in range(n_auto):
         c = ctl.gen_scenario(rng, max_lines=5, ctrl="main")
@@ -212,6 +220,9 @@ def gen(rng, n_manual, n_auto):
             for _ in range(rng.choice([1, 2])):
                 c["faults"].setdefault(str(rng.randint(1, 12)), []).append(["C1", str(rng.choice([F(1, 2), F(1), F(2), F(5, 2)]))])
         cases.append(c)
+    for q, c in enumerate([c for c in cases if c.get("kind") == "auto"]):
+        if q % 7 == 6 and "second" not in c:
+            ctl.add_second(rng, c)       # two iterations on the same objects under ICT-based control
     return cases
 
 
@@ -220,7 +231,7 @@ def run(res):
     nm, na = (60, 20) if res.tier == "quick" else (1500, 400)
     res.rule = ("1-2 feeders of up to 7 lines with laterals, 0/1/2 disconnectors per line, optional tie and microgrid (all three modes), sectioning time in {0,1/2,1,3/2,2} h, "
                 "steps 1, 1/2, 1/4 h, 1-4 overlapping line faults with repair 1/3..5/2 h at increments 1..12, quiet tail; manual control (model + oracle) and MainController (oracle; 60% with an ICT network in which ~20% of the devices are unreachable and a second fault while the manual sectioning time of the first is running). "
-                "non-trivial = distinct set of (open breakers, number of failed lines, normal?) states per run")
+                "every sixth / seventh scenario runs two iterations on the same objects (the first cut short mid-outage, reset_system - model op 'ctl reset' -, then fresh faults). non-trivial = distinct set of (open breakers, number of failed lines, normal?) states per run")
     run_cases(res, gen(rng, nm, na), handler, compare)
 
 
